@@ -910,18 +910,40 @@ def printJson (s : StateModel) : Outcome Json :=
 
 inductive Ty where
   | u32 | u64 | f32 | bool | str
+  | boolTrue        -- "this field may only be present when the value is `true`"
   | hexA            -- address-like hex string, padded to the platform width
   | hexN            -- other hex string
   | enum (vals : List String) (orHex : Bool)
   | arr (elem : Ty)
   | offsets         -- non-empty, strictly ascending array of `hexA`
   | regs            -- object: register name ↦ `hexN`
+  | adjusted        -- `crash_info.adjusted_address`: `kind` decides which member is present
   | obj (fields : List (String × Ty))
   | any
   deriving Repr, Inhabited
 
-def trustTy : Ty := .enum ["context", "cfi", "frame_pointer", "scan",
-  "cfi_scan", "prewalked", "non"] false          -- last three: undocumented
+/-! the enumerations, verbatim from json-schema.md (`…Documented`), and the values the code
+    emits today that the document does not list (`…Undocumented`; tolerated because the document
+    says "do not assume enums are exhaustive", and REPORTED by `undocumentedEnums`) -/
+def trustDocumented : List String := ["context", "cfi", "frame_pointer", "scan"]
+def trustUndocumented : List String := ["cfi_scan", "prewalked", "non"]
+def cpuDocumented : List String := ["x86", "amd64", "ppc", "ppc64", "sparc", "arm", "arm64", "unknown"]
+def cpuUndocumented : List String := ["mips", "mips64"]
+def osDocumented : List String :=
+  ["Windows NT", "Mac OS X", "iOS", "Linux", "Solaris", "Android", "PS3", "NaCl"]
+def accessTypeDocumented : List String := ["read", "write", "readwrite"]
+def inconsistencyDocumented : List String := ["int_div_by_zero_not_possible",
+  "priv_instruction_crash_without_priv_instruction", "non_canonical_address_falsely_reported",
+  "access_violation_when_access_allowed", "crashing_access_not_found_in_memory_accesses"]
+/-- `adjusted_address.kind`: documented `<string>`, with exactly these two values named in the
+    comments that say which other member is present -/
+def adjustedKindDocumented : List String := ["non-canonical", "null-pointer"]
+
+def trustTy : Ty := .enum (trustDocumented ++ trustUndocumented) false
+def cpuTy : Ty := .enum (cpuDocumented ++ cpuUndocumented) false
+def osTy : Ty := .enum osDocumented true
+def accessTy : Ty := .enum accessTypeDocumented false
+def inconsistencyTy : Ty := .enum inconsistencyDocumented false
 
 def frameFields : List (String × Ty) := [
   ("frame", .u32), ("trust", trustTy), ("registers", .regs), ("offset", .hexA),
@@ -935,55 +957,73 @@ def threadFields : List (String × Ty) := [
   ("thread_name", .str), ("thread_id", .u32), ("last_error_value", .str),
   ("frame_count", .u32), ("frames", .arr (.obj frameFields))]
 
+def memAccessFields : List (String × Ty) := [("address", .hexA), ("size", .u32),
+  ("is_likely_guard_page", .boolTrue), ("access_type", accessTy)]
+
+def ipUpdateFields : List (String × Ty) := [("address", .hexA), ("is_likely_guard_page", .boolTrue)]
+
+def bitFlipFields : List (String × Ty) := [("address", .hexA),
+  ("details", .obj [("was_non_canonical", .bool), ("is_null", .bool), ("was_low", .bool),
+                    ("poison_registers", .bool), ("nearby_registers", .u32)]),
+  ("confidence", .f32), ("source_register", .str)]
+
+def crashInfoFields : List (String × Ty) := [
+  ("type", .str),
+  ("address", .hexA),
+  ("adjusted_address", .adjusted),
+  ("instruction", .str),
+  ("memory_accesses", .arr (.obj memAccessFields)),
+  ("instruction_pointer_update", .obj ipUpdateFields),
+  ("possible_bit_flips", .arr (.obj bitFlipFields)),
+  ("crash_inconsistencies", .arr inconsistencyTy),
+  ("crashing_thread", .u32),
+  ("assertion", .str)]
+
+def systemInfoFields : List (String × Ty) := [
+  ("os", osTy),
+  ("os_ver", .str),
+  ("cpu_arch", cpuTy),
+  ("cpu_info", .str),
+  ("cpu_count", .u32),
+  ("cpu_microcode_version", .hexN)]
+
+def moduleFields : List (String × Ty) := [
+  ("base_addr", .hexA), ("end_addr", .hexA), ("debug_file", .str), ("debug_id", .str),
+  ("filename", .str), ("code_id", .str), ("version", .str), ("cert_subject", .str),
+  ("missing_symbols", .bool), ("loaded_symbols", .bool), ("corrupt_symbols", .bool),
+  ("symbol_url", .str)]
+
+def unloadedFields : List (String × Ty) := [
+  ("base_addr", .hexA), ("end_addr", .hexA), ("code_id", .str), ("filename", .str),
+  ("cert_subject", .str)]
+
+def handleFields : List (String × Ty) := [("handle", .u64), ("type_name", .str), ("object_name", .str)]
+
+def lsbFields : List (String × Ty) :=
+  [("id", .str), ("release", .str), ("codename", .str), ("description", .str)]
+
+def macRecordFields : List (String × Ty) := [("thread", .hexA), ("dialog_mode", .hexA),
+  ("abort_cause", .hexA), ("module", .str), ("message", .str), ("signature_string", .str),
+  ("backtrace", .str), ("message2", .str)]
+
+def macFields : List (String × Ty) := [("num_records", .u32), ("records", .arr (.obj macRecordFields))]
+
 def schema : Ty := .obj [
   ("status", .str),
   ("pid", .u32),
-  ("crash_info", .obj [
-    ("type", .str),
-    ("address", .hexA),
-    ("adjusted_address", .obj [("kind", .str), ("address", .hexA), ("offset", .hexA)]),
-    ("instruction", .str),
-    ("memory_accesses", .arr (.obj [("address", .hexA), ("size", .u32),
-        ("is_likely_guard_page", .bool), ("access_type", .enum ["read", "write", "readwrite"] false)])),
-    ("instruction_pointer_update", .obj [("address", .hexA), ("is_likely_guard_page", .bool)]),
-    ("possible_bit_flips", .arr (.obj [("address", .hexA),
-        ("details", .obj [("was_non_canonical", .bool), ("is_null", .bool), ("was_low", .bool),
-                          ("poison_registers", .bool), ("nearby_registers", .u32)]),
-        ("confidence", .f32), ("source_register", .str)])),
-    ("crash_inconsistencies", .arr (.enum ["int_div_by_zero_not_possible",
-        "priv_instruction_crash_without_priv_instruction", "non_canonical_address_falsely_reported",
-        "access_violation_when_access_allowed", "crashing_access_not_found_in_memory_accesses"] false)),
-    ("crashing_thread", .u32),
-    ("assertion", .str)]),
-  ("system_info", .obj [
-    ("os", .enum ["Windows NT", "Mac OS X", "iOS", "Linux", "Solaris", "Android", "PS3", "NaCl"] true),
-    ("os_ver", .str),
-    ("cpu_arch", .enum ["x86", "amd64", "ppc", "ppc64", "sparc", "arm", "arm64", "unknown",
-                        "mips", "mips64"] false),        -- last two: undocumented
-    ("cpu_info", .str),
-    ("cpu_count", .u32),
-    ("cpu_microcode_version", .hexN)]),
+  ("crash_info", .obj crashInfoFields),
+  ("system_info", .obj systemInfoFields),
   ("linux_memory_map_count", .u32),
   ("thread_count", .u32),
   ("threads", .arr (.obj threadFields)),
   ("crashing_thread", .obj (("threads_index", .u32) :: threadFields)),
   ("main_module", .u32),
   ("modules_contains_cert_info", .bool),
-  ("modules", .arr (.obj [
-    ("base_addr", .hexA), ("end_addr", .hexA), ("debug_file", .str), ("debug_id", .str),
-    ("filename", .str), ("code_id", .str), ("version", .str), ("cert_subject", .str),
-    ("missing_symbols", .bool), ("loaded_symbols", .bool), ("corrupt_symbols", .bool),
-    ("symbol_url", .str)])),
-  ("unloaded_modules", .arr (.obj [
-    ("base_addr", .hexA), ("end_addr", .hexA), ("code_id", .str), ("filename", .str),
-    ("cert_subject", .str)])),
-  ("handles", .arr (.obj [("handle", .u64), ("type_name", .str), ("object_name", .str)])),
-  ("lsb_release", .obj [("id", .str), ("release", .str), ("codename", .str), ("description", .str)]),
-  ("mac_crash_info", .obj [
-    ("num_records", .u32),
-    ("records", .arr (.obj [("thread", .hexA), ("dialog_mode", .hexA), ("abort_cause", .hexA),
-        ("module", .str), ("message", .str), ("signature_string", .str), ("backtrace", .str),
-        ("message2", .str)]))]),
+  ("modules", .arr (.obj moduleFields)),
+  ("unloaded_modules", .arr (.obj unloadedFields)),
+  ("handles", .arr (.obj handleFields)),
+  ("lsb_release", .obj lsbFields),
+  ("mac_crash_info", .obj macFields),
   ("mac_boot_args", .str),
   ("soft_errors", .arr (.obj []))]
 
@@ -1019,6 +1059,31 @@ def isHexJ (w : Nat) : Json → Bool
   | .str s => isHexString w s
   | _ => false
 
+def isAbsent : Option Json → Bool
+  | none => true
+  | some .null => true
+  | _ => false
+
+/-- `adjusted_address`: `kind` is one of the two documented strings; "non-canonical" comes with
+    a hex `address` (and no `offset`), "null-pointer" with a hex `offset` (and no `address`). -/
+def checkAdjusted (w : Nat) (kvs : List (String × Json)) (p : String) : Option String :=
+  match getKV "kind" kvs with
+  | some (.str k) =>
+    if k = "non-canonical" then
+      match getKV "address" kvs with
+      | some (.str a) =>
+        if isHexString w a then (if isAbsent (getKV "offset" kvs) then none else some (p ++ ".offset"))
+        else some (p ++ ".address")
+      | _ => some (p ++ ".address")
+    else if k = "null-pointer" then
+      match getKV "offset" kvs with
+      | some (.str a) =>
+        if isHexString w a then (if isAbsent (getKV "address" kvs) then none else some (p ++ ".address"))
+        else some (p ++ ".offset")
+      | _ => some (p ++ ".offset")
+    else some (p ++ ".kind")
+  | _ => some (p ++ ".kind")
+
 mutual
 /-- first offending path (`none`: the value has the documented type); `w` = platform digits -/
 def check (w : Nat) : Ty → Json → String → Option String
@@ -1028,6 +1093,8 @@ def check (w : Nat) : Ty → Json → String → Option String
   | .u64, .num n, p => if isU64 n then none else some p
   | .f32, .num _, _ => none
   | .bool, .bool _, _ => none
+  | .boolTrue, .bool b, p => if b then none else some p
+  | .adjusted, .obj kvs, p => checkAdjusted w kvs p
   | .str, .str _, _ => none
   | .hexA, .str s, p => if isHexString w s then none else some p
   | .hexN, .str s, p => if isHexString 1 s then none else some p
@@ -1070,11 +1137,113 @@ def undocumented (j : Json) : List String :=
   | .obj kvs, .obj fields => (kvs.map (·.1)).filter fun k => !(fields.map (·.1)).contains k
   | _, _ => []
 
+/-- the `trust` values of a thread's frames, in order -/
+def frameTrusts (t : Json) : List String :=
+  match t.get "frames" with
+  | some (.arr fs) => fs.filterMap fun f =>
+      match f.get "trust" with
+      | some (.str s) => some s
+      | _ => none
+  | _ => []
+
+/-- enumeration values in the report that json-schema.md does not list (tolerated by `schema`,
+    and therefore reported: `cpu_arch=…` first, then `trust=…` in order of first occurrence) -/
+def undocumentedEnums (j : Json) : List String :=
+  let ts := match j.get "threads" with
+    | some (.arr ts) => ts
+    | _ => []
+  let ct := match j.get "crashing_thread" with
+    | some c => [c]
+    | none => []
+  let cpu := match (j.get "system_info").bind (Json.get "cpu_arch") with
+    | some (.str a) => [a]
+    | _ => []
+  ((cpu.filter fun a => !cpuDocumented.contains a).map fun a => "cpu_arch=" ++ a) ++
+  (((ts ++ ct).flatMap frameTrusts).filter fun a => !trustDocumented.contains a).eraseDups.map
+    fun a => "trust=" ++ a
+
+/-! ## 8b. the redundancies of the report, as a predicate on the document alone
+
+  json-schema.md marks `thread_count`, `frame_count`, `frame`, `missing_symbols`, `num_records`
+  and the `crashing_thread` copy as redundant; `Consistent` recomputes each of them from the rest
+  of the document. (The offsets `module_offset`/`function_offset` and the `modules` mirror need
+  the state the document was printed from: theorems `offsets_agree`, `modules_mirror`, and the
+  engine's oracle.) -/
+
+def optBeq : Option Json → Option Json → Bool
+  | none, none => true
+  | some a, some b => Json.beq a b
+  | _, _ => false
+
+def isNatJ (j : Option Json) (n : Nat) : Bool :=
+  match j with
+  | some (.num m) => m == JNum.ofNat n
+  | _ => false
+
+/-- `frames[k].frame = k`; `missing_symbols` says whether `function` is null -/
+def framesConsistent : List Json → Nat → Bool
+  | [], _ => true
+  | f :: fs, k =>
+    isNatJ (f.get "frame") k &&
+    optBeq (f.get "missing_symbols") (some (.bool (isAbsent (f.get "function")))) &&
+    framesConsistent fs (k + 1)
+
+def threadConsistent (t : Json) : Bool :=
+  match t.get "frames" with
+  | some (.arr fs) => isNatJ (t.get "frame_count") fs.length && framesConsistent fs 0
+  | _ => false
+
+/-- the members of `a` and `b` agree outside `skip` (the order of members is irrelevant) -/
+def sameExcept (skip : List String) (a b : List (String × Json)) : Bool :=
+  (a.map (·.1) ++ b.map (·.1)).all fun k => skip.contains k || optBeq (getKV k a) (getKV k b)
+
+/-- `c` is `t` plus `threads_index`, plus `registers` in its first frame -/
+def copyOf (c t : Json) : Bool :=
+  match c, t with
+  | .obj ckvs, .obj tkvs =>
+    sameExcept ["threads_index", "frames"] ckvs tkvs &&
+    (match getKV "frames" ckvs, getKV "frames" tkvs with
+     | some (.arr (.obj cf0 :: crest)), some (.arr (.obj tf0 :: trest)) =>
+       sameExcept ["registers"] cf0 tf0 && Json.beqL crest trest && (getKV "registers" cf0).isSome
+     | _, _ => false)
+  | _, _ => false
+
+/-- a `crashing_thread` member, if present, carries an index into `threads`, equal to
+    `crash_info.crashing_thread`, and is a copy of the entry at that index -/
+def crashingConsistent (j : Json) (ts : List Json) : Bool :=
+  match j.get "crashing_thread" with
+  | none => true
+  | some c =>
+    match c.get "threads_index" with
+    | some (.num n) =>
+      n == JNum.ofNat n.int &&
+      optBeq ((j.get "crash_info").bind (Json.get "crashing_thread")) (some (.num n)) &&
+      (match ts[n.int]? with
+       | some t => copyOf c t
+       | none => false)
+    | _ => false
+
+def macConsistent (j : Json) : Bool :=
+  match j.get "mac_crash_info" with
+  | some (.obj kvs) =>
+    (match getKV "records" kvs with
+     | some (.arr rs) => isNatJ (getKV "num_records" kvs) rs.length
+     | _ => false)
+  | _ => true
+
+/-- **the redundancy predicate** -/
+def Consistent (j : Json) : Bool :=
+  (match j.get "threads" with
+   | some (.arr ts) =>
+     isNatJ (j.get "thread_count") ts.length && ts.all threadConsistent && crashingConsistent j ts
+   | _ => false) && macConsistent j
+
 /-! ## 9. line protocol
 
   `json <state> [ck <hex compact> <hex pretty>]`
-      -> `M:<hex(compact json)|PANIC>` [` C:<parsed><conforms>[@path] U:<undocumented,> P:<0|1>`]
-  `jsonck <hex(json bytes)>` -> `parsed:<0|1> conforms:<0|1>[@path]`
+      -> `M:<hex(compact json)|PANIC>`
+         [` C:<parsed><conforms>[@path] R:<consistent> U:<undocumented members,> E:<undocumented enum values,> P:<0|1>`]
+  `jsonck <hex(json bytes)>` -> `parsed:<0|1> conforms:<0|1>[@path] consistent:<0|1>`
   The state is a token tree: `(` … `)` lists, atoms `-` (None), `n<dec>`, `s<hex utf-8>`,
   `t`/`f`, `j<hex json text>`, bare enum tags.
 -/
@@ -1286,11 +1455,11 @@ end Dec
 
 def ckAnswer (compact : List UInt8) : String :=
   match parseBytes compact.toByteArray with
-  | none => "parsed:0 conforms:0"
+  | none => "parsed:0 conforms:0 consistent:0"
   | some j =>
-    match conformsAt j with
-    | none => "parsed:1 conforms:1"
-    | some p => "parsed:1 conforms:0@" ++ p
+    (match conformsAt j with
+     | none => "parsed:1 conforms:1"
+     | some p => "parsed:1 conforms:0@" ++ p) ++ " consistent:" ++ (if Consistent j then "1" else "0")
 
 /-- line-protocol entry point of this model (engine(s): json, jsonck) -/
 def handle (engine : String) (args : List String) : String :=
@@ -1321,16 +1490,18 @@ def handle (engine : String) (args : List String) : String :=
           match Proto.unhex c, Proto.unhex p with
           | some cb, some pb =>
             match parseBytes cb.toByteArray with
-            | none => m ++ " C:00 U: P:0"
+            | none => m ++ " C:00 R:0 U: E: P:0"
             | some j =>
               let c := match conformsAt j with
                 | none => "11"
                 | some path => "10@" ++ path
               let u := ",".intercalate (undocumented j)
+              let e := ",".intercalate (undocumentedEnums j)
+              let r := if Consistent j then "1" else "0"
               let pp := match parseBytes pb.toByteArray with
                 | some j' => if Json.beq j j' then "1" else "0"
                 | none => "0"
-              m ++ " C:" ++ c ++ " U:" ++ u ++ " P:" ++ pp
+              m ++ " C:" ++ c ++ " R:" ++ r ++ " U:" ++ u ++ " E:" ++ e ++ " P:" ++ pp
           | _, _ => "bad-op"
     | _ => "bad-op"
   else "bad-op"
